@@ -24,7 +24,19 @@ def r_atomic(ctx):
     for mname in ("server", "server_websocket"):
         mod = repo.modules[mname]
         bad = []
+        # the single yield of a @contextmanager helper is where its `with`
+        # block runs, synchronously: not a suspension point
+        cm_yields = set()
+        for fn in ast.walk(mod.tree):
+            if isinstance(fn, ast.FunctionDef) and any(
+                    (dotted(d) or "").split(".")[-1] == "contextmanager"
+                    for d in fn.decorator_list):
+                ys = [n for n in ast.walk(fn) if isinstance(n, (ast.Yield, ast.YieldFrom))]
+                if len(ys) == 1 and isinstance(ys[0], ast.Yield):
+                    cm_yields.add(id(ys[0]))
         for node in ast.walk(mod.tree):
+            if id(node) in cm_yields:
+                continue
             if isinstance(node, (ast.Yield, ast.YieldFrom, ast.Await,
                                  ast.AsyncFunctionDef, ast.AsyncFor, ast.AsyncWith)):
                 bad.append((node, type(node).__name__))
